@@ -298,9 +298,13 @@ func (hostileEngine) Run(ctx *fw.Ctx, cs any) {
 				opts = append(opts, pkt.O4(54, 10, 77, 0, byte(1+rng.Intn(2))))
 			}
 			p := pkt.Request4(xid, mac, byte(1+2*rng.Intn(2)), opts...)
-			switch rng.Intn(4) {
+			switch rng.Intn(5) {
 			case 0:
 				p.Gi = pkt.IP4("10.9.9.9")
+			case 4:
+				// a relay whose address lies in the range the chain's range plugin serves (10.77.2.1 ...): the first
+				// addresses of the pool, i.e. around the one it would hand out next
+				p.Gi = [4]byte{10, 77, 2, byte(1 + rng.Intn(8))}
 			case 1:
 				p.Flags = 0x8000
 			case 2:
@@ -394,6 +398,8 @@ func (hostileEngine) Run(ctx *fw.Ctx, cs any) {
 			frame := lockFrame(out.Stderr)
 			if frame != "" {
 				ctx.Viol("C01", "wedged:"+frame, "%s: handling did not return %s; a goroutine is parked on a lock below %s - later datagrams cannot be handled\n%s", conf, what, frame, firstLines(out.Stderr, 30))
+			} else if sf := spinFrame(out.Stderr); sf != "" {
+				ctx.Viol("C01", "spinning:"+sf, "%s: handling did not return %s within the watchdog; a goroutine is still running inside %s\n%s", conf, what, sf, firstLines(out.Stderr, 30))
 			} else {
 				ctx.Inconclusive("hostile: child exceeded the watchdog %s without a lock-parked handler (%s)", what, conf)
 			}
@@ -420,6 +426,31 @@ func chainStr(c []PlugConf, has bool) string {
 }
 
 // lockFrame finds, in a SIGQUIT dump, a goroutine blocked in a mutex below a coredhcp frame.
+// spinFrame: a goroutine that is running (not parked on anything) inside coredhcp code called from the harness,
+// in a dump taken after the whole stall period went by without the call returning: handling that does not
+// terminate. Returns the innermost coredhcp frame, "" if there is none.
+func spinFrame(s string) string {
+	for _, g := range strings.Split(s, "\n\n") {
+		head, _, _ := strings.Cut(g, "\n")
+		if !strings.HasPrefix(head, "goroutine ") || !(strings.Contains(head, "[running") || strings.Contains(head, "[runnable")) {
+			continue
+		}
+		for _, line := range strings.Split(g, "\n") {
+			if strings.HasPrefix(line, "verif/") || strings.HasPrefix(line, "main.") {
+				break // harness code on top: not inside the code under test
+			}
+			if strings.HasPrefix(line, "github.com/coredhcp/coredhcp/") {
+				f := line
+				if i := strings.LastIndex(f, "("); i > 0 {
+					f = f[:i]
+				}
+				return strings.TrimPrefix(f, "github.com/coredhcp/coredhcp/")
+			}
+		}
+	}
+	return ""
+}
+
 func lockFrame(dump string) string {
 	for _, g := range strings.Split(dump, "\n\n") {
 		if !strings.Contains(g, "sync.(*Mutex).Lock") && !strings.Contains(g, "sync.(*RWMutex).") && !strings.Contains(g, "sync.Mutex.Lock") {
